@@ -32,7 +32,7 @@ def inventory():
 
 
 def is_helper(fn):
-    if fn is not None and fn.get("alias_partner"):
+    if fn is not None and (fn.get("alias_partner") or fn.get("role_unit")):
         return False
     """a repo function the rules do not know as a unit"""
     if fn is None or fn.get("closure") or "{closure" in (fn.get("key") or fn.get("path") or ""):
@@ -302,6 +302,14 @@ def apply_to_facts(F):
     for k_, v_ in list(F.fns.items()):
         if v_.get("path") in partner_paths:
             F.fns[k_] = dict(v_, alias_partner=True)
+    # a function recognised by its role (roles.py) is a unit whatever it is called
+    from . import roles as R_
+    for rk in R_.units(F):
+        F.insts[rk] = dict(F.insts[rk], role_unit=True)
+        rp = F.insts[rk].get("path")
+        for k_, v_ in list(F.fns.items()):
+            if v_.get("path") == rp:
+                F.fns[k_] = dict(v_, role_unit=True)
     table = dict(F.std_insts)
     table.update(F.insts)
 
@@ -420,3 +428,35 @@ def owners_of(F, f):
         return [f]
     me = f.get("path")
     return [v for k, v in F.fns.items() if not is_helper(v) and me in (v.get("inlined") or [])]
+
+
+def constructors_of(F, adt, allowed_names):
+    """who-constructs census over the polymorphic bodies: functions with an aggregate of `adt`; a closure counts as its enclosing
+    function, a helper (not a unit of its own) as the units it is spliced into -> (construction sites, offending paths)"""
+    ctors = []
+    for k_, f_ in F.fns.items():
+        for bb_ in f_["body"]["blocks"]:
+            if bb_.get("cleanup"):
+                continue
+            for st_ in bb_["s"]:
+                if st_["k"] == "assign" and st_["rv"]["k"] == "aggr" and st_["rv"].get("adt") == adt:
+                    ctors.append(f_)
+    by_path = {}
+    for k_, v_ in F.fns.items():
+        by_path.setdefault(v_.get("path") or k_, v_)
+    bad = set()
+    for f_ in ctors:
+        g_ = f_
+        p_ = str(g_.get("path") or "")
+        while "::{closure" in p_:
+            p_ = p_[:p_.rindex("::{closure")]
+            g_ = by_path.get(p_, g_)
+            if g_.get("path") != p_:
+                break
+        owners = owners_of(F, g_) if not g_.get("closure") else []
+        if not owners:
+            bad.add(str(f_.get("path")))
+        for o_ in owners:
+            if not (o_.get("name") in allowed_names or o_.get("derived")):
+                bad.add(str(f_.get("path")) if o_ is f_ else "%s (in %s)" % (f_.get("path"), o_.get("path")))
+    return ctors, sorted(bad)
